@@ -5,7 +5,7 @@ import base, common, genrun, tlc, render
 from execworld import World
 import execreplay
 
-QUICK = ["MC_exec_basic.cfg", "MC_exec_abstract.cfg", "MC_exec_lists.cfg", "MC_exec_falsy.cfg", "MC_exec_long.cfg", "MC_exec_ops2.cfg", "MC_exec_cs.cfg", "MC_exec_widen.cfg", "MC_exec_typeres.cfg", "MC_exec_args.cfg",
+QUICK = ["MC_exec_basic.cfg", "MC_exec_abstract.cfg", "MC_exec_lists.cfg", "MC_exec_falsy.cfg", "MC_exec_long.cfg", "MC_exec_objlit.cfg", "MC_exec_ops2.cfg", "MC_exec_cs.cfg", "MC_exec_widen.cfg", "MC_exec_typeres.cfg", "MC_exec_args.cfg",
          "MC_exec_frag.cfg", "MC_exec_fragq.cfg", "MC_exec_merge.cfg", "MC_exec_merge2.cfg", "MC_exec_mutargs.cfg", "MC_exec_fragvar.cfg", "MC_exec_dirs.cfg", "MC_exec_dirs2.cfg", "MC_exec_s2.cfg", "MC_exec_s2g.cfg", "MC_exec_s2m.cfg", "MC_exec_ops.cfg", "MC_exec_mut.cfg"]
 THOROUGH = QUICK + ["MC_exec_basic5.cfg", "MC_exec_abstract5.cfg", "MC_exec_frag5.cfg", "MC_exec_dirs5.cfg", "MC_exec_lists5.cfg"]
 
